@@ -3,6 +3,7 @@ package checks
 import (
 	"encoding/json"
 	"fmt"
+	"sort"
 	"strconv"
 	"strings"
 
@@ -147,7 +148,12 @@ func c06Run(c *fw.Ctx) {
 					}
 				}
 			}
+			var szList []int
 			for sz := range sizes {
+				szList = append(szList, sz)
+			}
+			sort.Ints(szList) // the enumeration order must be identical in every worker process
+			for _, sz := range szList {
 				if sz == 1 {
 					continue // a 1-byte LF-normalised body would be a lone line terminator; covered by 0 and 2
 				}
